@@ -9,7 +9,7 @@ pub fn scenarios(tier: &str) -> Vec<Scenario> {
     let t = |sig: u8, n: u64, v: u8| TxSpec::Transact { signer: sig, nonce: n, tgt: Tgt::s(), data: crate::asm::s_set(1, v, 2, [v, 1, 0, 0]), len: DEFAULT_LEN };
     let alpha = vec![
         m_block("B(4 logging txs)", vec![s_set(0, 0, 1), s_set(1, 1, 2), s_set(2, 2, 3), s_call(0, vec![9, 3, 7])]),
-        m_block("B(3 txs, 2 senders, wide)", vec![s_set(1, 0, 2), s_call(2, vec![2]), s_set(0, 1, 1), s_setwide(2, 3)]),
+        m_block("B(3 txs, 2 senders, wide)", vec![s_set(1, 0, 2), s_call(2, vec![2]), s_set(0, 1, 1), s_setwide(2, 3), s_by_insc(1, crate::asm::s_set(3, 4, 1, [4, 0, 0, 0]))]),
         m_block("B(deposit,deposit,withdraw)", vec![
             TxSpec::Deposit { pk: 1, ticker: "ordi".into(), amount: "0x5".into() },
             TxSpec::Deposit { pk: 2, ticker: "ORDI".into(), amount: "0x7".into() },
